@@ -44,12 +44,39 @@ class _Continue(Exception):
     pass
 
 
-class Arr:
-    """an array of the library: its dimensions; the value buffer is abstracted to its length"""
-    __slots__ = ("dims", "tracked")
+_UID = [0]
 
-    def __init__(self, dims, tracked=False):
-        self.dims, self.tracked = list(dims), tracked
+
+class Arr:
+    """an array of the library: its dimensions, its per-handle flags, the operands it records and whether it carries a derivative;
+    the value buffer is abstracted to its length.  `uid` names the node (clones share it)"""
+    __slots__ = ("dims", "tracked", "keep", "children", "bop", "uid")
+
+    def __init__(self, dims, tracked=False, uid=None):
+        self.dims, self.tracked, self.keep = list(dims), tracked, tracked
+        self.children, self.bop = [], False
+        if uid is None:
+            _UID[0] += 1
+            uid = _UID[0]
+        self.uid = uid
+
+    def copy(self):
+        o = Arr(self.dims, self.tracked, self.uid)
+        o.keep, o.children, o.bop = self.keep, list(self.children), self.bop
+        return o
+
+    def reach(self, seen=None):
+        """uids of the nodes this array keeps a reference to through its recorded operands"""
+        seen = seen if seen is not None else set()
+        visited = set()
+        todo = list(self.children)
+        while todo:
+            ch = todo.pop()
+            if isinstance(ch, Arr) and id(ch) not in visited:
+                visited.add(id(ch))
+                seen.add(ch.uid)
+                todo.extend(ch.children)
+        return seen
 
     def __repr__(self):
         return "Arr%s" % (self.dims,)
@@ -184,9 +211,9 @@ PASS_THROUGH = (
     "alloc::slice::<impl [T]>::into_vec", "core::iter::traits::collect::IntoIterator::into_iter", "core::slice::<impl [T]>::iter",
     "core::iter::traits::iterator::Iterator::copied", "core::iter::traits::iterator::Iterator::cloned", "core::iter::traits::iterator::Iterator::by_ref",
     "core::iter::traits::iterator::Iterator::collect", "core::iter::traits::iterator::Iterator::peekable", "core::iter::traits::iterator::Iterator::fuse",
-    "core::array::<impl [T; N]>::iter", "alloc::vec::Vec::<T, A>::iter", "core::iter::traits::double_ended::DoubleEndedIterator::rev_placeholder",
+    "core::array::<impl [T; N]>::iter", "alloc::vec::Vec::<T, A>::iter", "core::cell::Cell::<T>::new", "core::cell::RefCell::<T>::new", "core::iter::traits::double_ended::DoubleEndedIterator::rev_placeholder",
 )
-SELF_RETURNING = ("corgi::array::Array::with_children", "corgi::array::Array::with_backward_op", "corgi::array::Array::tracked", "corgi::array::Array::untracked")
+SELF_RETURNING = ()
 
 
 class Interp:
@@ -299,12 +326,14 @@ class Interp:
                     self.bind(s["pat"], UNK, env)
                 return True
             if isinstance(vv, tuple):
+                ok_ = True
                 for s in subs:
                     i = s.get("idx")
                     if i is None or i >= len(vv):
                         raise Abort("tuple pattern")
-                    self.bind(s["pat"], vv[i], env)
-                return True
+                    if not self.bind(s["pat"], vv[i], env):
+                        ok_ = False
+                return ok_
             raise Abort("leaf pattern over %r" % (type(vv).__name__,))
         if k == "Variant":
             vv = deref(v)
@@ -319,7 +348,43 @@ class Interp:
                     return True
                 return False
             raise Abort("variant pattern %s" % pat.get("adt"))
+        if k in ("Slice", "Array"):
+            vv = deref(v)
+            pre, suf, mid = pat.get("prefix") or [], pat.get("suffix") or [], pat.get("slice")
+            if isinstance(vv, FVec):
+                if vv.n is None:
+                    raise Abort("slice pattern over a buffer of unknown length")
+                n_ = vv.n
+                if (mid is None and n_ != len(pre) + len(suf)) or n_ < len(pre) + len(suf):
+                    return False
+                for q in pre + suf:
+                    self.bind(q, UNK, env)
+                if isinstance(mid, dict):
+                    self.bind(mid, FVec(n_ - len(pre) - len(suf)), env)
+                return True
+            if isinstance(vv, list):
+                n_ = len(vv)
+                if (mid is None and n_ != len(pre) + len(suf)) or n_ < len(pre) + len(suf):
+                    return False
+                ok = True
+                for i_, q in enumerate(pre):
+                    ok = self.bind(q, vv[i_], env) and ok
+                for i_, q in enumerate(suf):
+                    ok = self.bind(q, vv[n_ - len(suf) + i_], env) and ok
+                if isinstance(mid, dict):
+                    self.bind(mid, list(vv[len(pre):n_ - len(suf)]), env)
+                return ok
+            raise Abort("slice pattern over %s" % type(vv).__name__)
         if k == "Constant":
+            vv = deref(v)
+            want = pat.get("value")
+            if isinstance(vv, bool) and want in ("true", "false"):
+                return vv == (want == "true")
+            if isinstance(vv, int) and not isinstance(vv, bool):
+                try:
+                    return vv == int(str(want).rstrip("usizei32u64").replace("_", ""))
+                except ValueError:
+                    pass
             raise Abort("constant pattern")
         raise Abort("pattern %s" % k)
 
@@ -367,8 +432,13 @@ class Interp:
         if k == "Field":
             base = deref(self.ev(p["e"], env))
             if isinstance(base, Arr):
+                dv_ = deref(v)
                 if p.get("name") == "dimensions":
-                    base.dims = list(deref(v)) if isinstance(deref(v), list) else base.dims
+                    base.dims = list(dv_) if isinstance(dv_, list) else base.dims
+                elif p.get("name") == "children":
+                    base.children = [deref(x) for x in dv_] if isinstance(dv_, list) else [UNK]
+                elif p.get("name") == "backward_op":
+                    base.bop = isinstance(dv_, Some) or (dv_ is not NONE and dv_ is not UNK)
                 return
             if base is UNK:
                 return
@@ -501,9 +571,7 @@ class Interp:
                 env2 = Env(env)
                 p = a["pat"]
                 ok = None
-                if p.get("k") in ("Binding", "Wild", "Leaf", "Deref", "DerefPattern", "Variant"):
-                    if p.get("k") == "Constant":
-                        raise Abort("constant arm")
+                if p.get("k") in ("Binding", "Wild", "Leaf", "Deref", "DerefPattern", "Variant", "Slice", "Array", "Constant"):
                     ok = self.bind(p, sv, env2)
                 else:
                     lv = F.lit_value(p.get("value")) if isinstance(p.get("value"), dict) else None
@@ -562,8 +630,12 @@ class Interp:
                     return FVec(n_)
                 if nm == "is_tracked":
                     return ("cell", base, "tracked")
+                if nm == "keep_gradient":
+                    return ("cell", base, "keep")
                 if nm == "children":
-                    return UNK
+                    return base.children
+                if nm == "backward_op":
+                    return Some(UNK) if base.bop else NONE
                 return UNK
             if isinstance(base, tuple) and e.get("idx") is not None and e["idx"] < len(base):
                 return base[e["idx"]]
@@ -596,7 +668,18 @@ class Interp:
                     if f_.get("name") == "dimensions":
                         dims = deref(self.ev(f_["e"], env))
                 if isinstance(dims, list):
-                    return Arr(dims)
+                    out = Arr(dims)
+                    if e.get("base") is not None and isinstance(base, Arr):
+                        out = base.copy()
+                        out.dims = list(dims)
+                    for f_ in e.get("fields") or []:
+                        if f_.get("name") == "children":
+                            cv = deref(self.ev(f_["e"], env))
+                            out.children = [deref(x) for x in cv] if isinstance(cv, list) else [UNK]
+                        elif f_.get("name") == "backward_op":
+                            bv = deref(self.ev(f_["e"], env))
+                            out.bop = isinstance(bv, Some)
+                    return out
                 return UNK
             if adt.startswith("core::ops::range::Range"):
                 fl_ = {f_["name"]: deref(self.ev(f_["e"], env)) for f_ in e.get("fields") or []}
@@ -794,12 +877,7 @@ class Interp:
             for a in args[1:]:
                 self.ev(a, env)
             if isinstance(a0, Arr):
-                out = Arr(a0.dims, a0.tracked)
-                if r.endswith("::tracked"):
-                    out.tracked = True
-                if r.endswith("::untracked"):
-                    out.tracked = False
-                return out
+                return a0.copy()
             return UNK
         if r in ("corgi::array::Array::dimensions",):
             a0 = deref(self.ev(args[0], env))
@@ -816,12 +894,12 @@ class Interp:
             a0 = self.ev(args[0], env)
             if isinstance(a0, tuple) and len(a0) == 3 and a0[0] == "cell":
                 if tail == "get":
-                    return a0[1].tracked
+                    return getattr(a0[1], a0[2])
                 if tail in ("set", "replace") and len(args) > 1:
-                    old = a0[1].tracked
+                    old = getattr(a0[1], a0[2])
                     v = deref(self.ev(args[1], env))
                     if isinstance(v, bool):
-                        a0[1].tracked = v
+                        setattr(a0[1], a0[2], v)
                     return old if tail == "replace" else ()
             return UNK
         # ---- crate-local functions
@@ -840,7 +918,7 @@ class Interp:
             if tail in ("clone", "to_owned", "to_vec", "into_vec", "collect") and isinstance(dv, list):
                 return [deref(x) if tail != "collect" else x for x in dv]
             if tail in ("clone", "to_owned") and isinstance(dv, Arr):
-                return Arr(dv.dims, dv.tracked)
+                return dv.copy()
             if tail in ("iter", "into_iter", "copied", "cloned") and isinstance(dv, tuple) and dv and dv[0] == "range":
                 return self.items(dv)
             if tail in ("copied", "cloned") and isinstance(dv, list):
@@ -1399,7 +1477,7 @@ def _freeze(v):
     if isinstance(v, bool) or isinstance(v, int) or isinstance(v, str):
         return v
     if isinstance(v, Arr):
-        return ("A", tuple(_freeze(d) for d in v.dims), v.tracked)
+        return ("A", tuple(_freeze(d) for d in v.dims), v.tracked, v.keep, v.uid, v.bop, tuple(_freeze(c_) for c_ in v.children))
     if isinstance(v, FVec):
         return ("F", v.n)
     if isinstance(v, list):
@@ -1423,7 +1501,9 @@ def _thaw(v):
         if v[0] == "?":
             return UNK
         if v[0] == "A":
-            return Arr([_thaw(d) for d in v[1]], v[2])
+            o_ = Arr([_thaw(d) for d in v[1]], v[2], v[4])
+            o_.keep, o_.bop, o_.children = v[3], v[5], [_thaw(c_) for c_ in v[6]]
+            return o_
         if v[0] == "F":
             return FVec(v[1])
         if v[0] == "L":
@@ -1445,6 +1525,15 @@ _MEMO = {}
 def run(facts, body, args, budget=60000):
     """-> ('panic', node) | ('value', v) | ('unknown', why)"""
     memo = _MEMO.setdefault(id(facts), {})
+    # operands are numbered 1, 2, 3 ... by the caller; nodes created during this evaluation from 100: the same call on the same shapes
+    # names its nodes the same way, so remembered results stay valid across grid points
+    k_ = 0
+    for a in args:
+        for x in (a if isinstance(a, (tuple, list)) else (a,)):
+            if isinstance(x, Arr):
+                k_ += 1
+                x.uid = k_
+    _UID[0] = 100
     it = Interp(facts, budget, memo)
     try:
         v = it.call_fn(body, args)
